@@ -165,7 +165,7 @@ EXPORT int _vswprintf_s_chk(wchar_t *restrict dest, rsize_t dmax,
     /* check for ESNOSPC or some other error */
     if (unlikely(ret == -1)) {
         if (likely(dmax < 512)) { /* stacksize 2k */
-            static wchar_t tmp[512];
+            wchar_t tmp[512];
             if (dmax == 1)
                 goto nospc;
             ret = vswprintf(tmp, 512, fmt, ap2);
